@@ -31,6 +31,9 @@ type CacheScen struct {
 	Ops     []CacheOp        `json:"ops"`
 	Readers int              `json:"readers"`
 	Sim     SimCfg           `json:"sim"`
+	// Tree (C02 only): instead of one cache driven directly, a controller with a
+	// tree of subscriptions whose subscribers replay what they receive
+	Tree *Tree `json:"tree,omitempty"`
 }
 
 var cacheKeys = [][2]string{{"n1", "a"}, {"", "a"}, {"n1", "b"}, {"n2", "a"}, {"n-1", "a"}, {"n", "1-a"}} // "" = a cluster-scoped object (nodes have no namespace); the last two collide under a "-" join
@@ -381,6 +384,10 @@ func runCacheFlaky(sc *CacheScen) {
 
 func runCache(sci interface{}) {
 	sc := sci.(*CacheScen)
+	if sc.Tree != nil {
+		runTree(sc.Tree)
+		return
+	}
 	if sc.Filter.Op == "flaky" {
 		runCacheFlaky(sc)
 		return
@@ -649,13 +656,24 @@ func init() {
 		Gen: genCache,
 		New: func() interface{} { return &CacheScen{} },
 		Run: runCache,
-		Sim: func(sc interface{}) SimCfg { return sc.(*CacheScen).Sim },
+		Sim: func(sc interface{}) SimCfg {
+			if t := sc.(*CacheScen).Tree; t != nil {
+				return t.Sim
+			}
+			return sc.(*CacheScen).Sim
+		},
 		Describe: func(sci interface{}) string {
 			sc := sci.(*CacheScen)
+			if sc.Tree != nil {
+				return "tree: " + describeTree(sc.Tree)
+			}
 			return fmt.Sprintf("filter=%s readers=%d ops: %s", sc.Filter.String(), sc.Readers, descOps(sc.Ops))
 		},
 		Nontrivial: func(sci interface{}, res *detsim.Result) bool {
 			sc := sci.(*CacheScen)
+			if sc.Tree != nil {
+				return len(sc.Tree.Acts) > 1
+			}
 			return len(sc.Ops) >= 2
 		},
 	}
@@ -666,6 +684,14 @@ func init() {
 	// rejected unknown objects are over-represented.
 	fam2 := *fam
 	fam2.Gen = func(g GenCtx) interface{} {
+		if g.Idx%16 == 6 {
+			// "controller and filtered subscriptions publish exactly the returned
+			// events": subscribers that replay what they receive below filtered
+			// nodes, with equal-filter Refilter calls while parent events are in flight
+			t := genC06base(g).(*Tree)
+			sameRefilters(g.Rng, t, 2)
+			return &CacheScen{Prop: g.Prop, Tree: t}
+		}
 		sc := genCache(g).(*CacheScen)
 		if g.Idx%2 == 1 {
 			return sc // the alphabet sweep is shared
